@@ -1,4 +1,4 @@
 """Properties not (yet) claimed, each with the reason that goes into MANIFEST.not_applicable."""
 _NYB = ('not claimed in this build: the functions this property depends on are not yet under '
         'machine-checked contract (planned, DESIGN.md section 8); no other technique is substituted')
-REASONS = dict(('C%02d' % i, _NYB) for i in range(1, 21) if i not in (1, 2, 3, 4, 5, 6, 8, 9, 10, 11, 13, 14, 15, 18, 19, 20))
+REASONS = dict(('C%02d' % i, _NYB) for i in range(1, 21) if i not in (1, 2, 3, 4, 5, 6, 7, 8, 9, 10, 11, 13, 14, 15, 17, 18, 19, 20))
